@@ -452,7 +452,12 @@ class ContentSecurityPolicySourceHash(ParsableBase, Serializable):
 
         parser.parse_string_until_separator_or_end('hash_value', ' ')
 
-        return cls(parser['hash_algorithm'].hash_algorithm, parser['hash_value']), parser.parsed_length
+        try:
+            source_hash = cls(parser['hash_algorithm'].hash_algorithm, parser['hash_value'])
+        except TypeError as e:
+            six.raise_from(InvalidValue(parser['hash_value'], cls, 'hash_value'), e)
+
+        return source_hash, parser.parsed_length
 
     def compose(self):
         composer = ComposerText()
@@ -489,7 +494,12 @@ class ContentSecurityPolicySourceNonce(ParsableBase, Serializable):
 
         parser.parse_string_until_separator_or_end('value', ' ')
 
-        return cls(**parser), parser.parsed_length
+        try:
+            source_nonce = cls(**parser)
+        except TypeError as e:
+            six.raise_from(InvalidValue(parser['value'], cls, 'value'), e)
+
+        return source_nonce, parser.parsed_length
 
     def compose(self):
         composer = ComposerText()
